@@ -19,6 +19,9 @@ Model/Loc.vos Model/Loc.vok Model/Loc.required_vos: Model/Loc.v Model/Val.vos Mo
 Model/Oracle.vo Model/Oracle.glob Model/Oracle.v.beautified Model/Oracle.required_vo: Model/Oracle.v Model/Val.vo Model/Syntax.vo Model/World.vo Model/Step.vo Model/Spec.vo Model/Loc.vo
 Model/Oracle.vio: Model/Oracle.v Model/Val.vio Model/Syntax.vio Model/World.vio Model/Step.vio Model/Spec.vio Model/Loc.vio
 Model/Oracle.vos Model/Oracle.vok Model/Oracle.required_vos: Model/Oracle.v Model/Val.vos Model/Syntax.vos Model/World.vos Model/Step.vos Model/Spec.vos Model/Loc.vos
+Model/Oracle2.vo Model/Oracle2.glob Model/Oracle2.v.beautified Model/Oracle2.required_vo: Model/Oracle2.v Model/Val.vo Model/Syntax.vo Model/World.vo Model/Step.vo Model/Spec.vo Model/Oracle.vo
+Model/Oracle2.vio: Model/Oracle2.v Model/Val.vio Model/Syntax.vio Model/World.vio Model/Step.vio Model/Spec.vio Model/Oracle.vio
+Model/Oracle2.vos Model/Oracle2.vok Model/Oracle2.required_vos: Model/Oracle2.v Model/Val.vos Model/Syntax.vos Model/World.vos Model/Step.vos Model/Spec.vos Model/Oracle.vos
 Proofs/Contract.vo Proofs/Contract.glob Proofs/Contract.v.beautified Proofs/Contract.required_vo: Proofs/Contract.v Model/Val.vo Model/Syntax.vo Model/World.vo Model/Step.vo Model/Oracle.vo
 Proofs/Contract.vio: Proofs/Contract.v Model/Val.vio Model/Syntax.vio Model/World.vio Model/Step.vio Model/Oracle.vio
 Proofs/Contract.vos Proofs/Contract.vok Proofs/Contract.required_vos: Proofs/Contract.v Model/Val.vos Model/Syntax.vos Model/World.vos Model/Step.vos Model/Oracle.vos
@@ -28,9 +31,24 @@ Proofs/LocBase.vos Proofs/LocBase.vok Proofs/LocBase.required_vos: Proofs/LocBas
 Proofs/LocOpsA.vo Proofs/LocOpsA.glob Proofs/LocOpsA.v.beautified Proofs/LocOpsA.required_vo: Proofs/LocOpsA.v Model/Val.vo Model/Syntax.vo Model/Step.vo Model/Spec.vo Model/Loc.vo Proofs/LocBase.vo
 Proofs/LocOpsA.vio: Proofs/LocOpsA.v Model/Val.vio Model/Syntax.vio Model/Step.vio Model/Spec.vio Model/Loc.vio Proofs/LocBase.vio
 Proofs/LocOpsA.vos Proofs/LocOpsA.vok Proofs/LocOpsA.required_vos: Proofs/LocOpsA.v Model/Val.vos Model/Syntax.vos Model/Step.vos Model/Spec.vos Model/Loc.vos Proofs/LocBase.vos
+Proofs/LocOpsB.vo Proofs/LocOpsB.glob Proofs/LocOpsB.v.beautified Proofs/LocOpsB.required_vo: Proofs/LocOpsB.v Model/Val.vo Model/Syntax.vo Model/Step.vo Model/Spec.vo Model/Loc.vo Proofs/LocBase.vo
+Proofs/LocOpsB.vio: Proofs/LocOpsB.v Model/Val.vio Model/Syntax.vio Model/Step.vio Model/Spec.vio Model/Loc.vio Proofs/LocBase.vio
+Proofs/LocOpsB.vos Proofs/LocOpsB.vok Proofs/LocOpsB.required_vos: Proofs/LocOpsB.v Model/Val.vos Model/Syntax.vos Model/Step.vos Model/Spec.vos Model/Loc.vos Proofs/LocBase.vos
+Proofs/LocOpsC.vo Proofs/LocOpsC.glob Proofs/LocOpsC.v.beautified Proofs/LocOpsC.required_vo: Proofs/LocOpsC.v Model/Val.vo Model/Syntax.vo Model/Step.vo Model/Spec.vo Model/Loc.vo Proofs/LocBase.vo
+Proofs/LocOpsC.vio: Proofs/LocOpsC.v Model/Val.vio Model/Syntax.vio Model/Step.vio Model/Spec.vio Model/Loc.vio Proofs/LocBase.vio
+Proofs/LocOpsC.vos Proofs/LocOpsC.vok Proofs/LocOpsC.required_vos: Proofs/LocOpsC.v Model/Val.vos Model/Syntax.vos Model/Step.vos Model/Spec.vos Model/Loc.vos Proofs/LocBase.vos
+Proofs/LocOpsD.vo Proofs/LocOpsD.glob Proofs/LocOpsD.v.beautified Proofs/LocOpsD.required_vo: Proofs/LocOpsD.v Model/Val.vo Model/Syntax.vo Model/Step.vo Model/Spec.vo Model/Loc.vo Proofs/LocBase.vo
+Proofs/LocOpsD.vio: Proofs/LocOpsD.v Model/Val.vio Model/Syntax.vio Model/Step.vio Model/Spec.vio Model/Loc.vio Proofs/LocBase.vio
+Proofs/LocOpsD.vos Proofs/LocOpsD.vok Proofs/LocOpsD.required_vos: Proofs/LocOpsD.v Model/Val.vos Model/Syntax.vos Model/Step.vos Model/Spec.vos Model/Loc.vos Proofs/LocBase.vos
+Proofs/LocAll.vo Proofs/LocAll.glob Proofs/LocAll.v.beautified Proofs/LocAll.required_vo: Proofs/LocAll.v Model/Val.vo Model/Syntax.vo Model/Step.vo Model/Spec.vo Model/Loc.vo Proofs/LocBase.vo Proofs/LocOpsA.vo Proofs/LocOpsB.vo Proofs/LocOpsC.vo Proofs/LocOpsD.vo
+Proofs/LocAll.vio: Proofs/LocAll.v Model/Val.vio Model/Syntax.vio Model/Step.vio Model/Spec.vio Model/Loc.vio Proofs/LocBase.vio Proofs/LocOpsA.vio Proofs/LocOpsB.vio Proofs/LocOpsC.vio Proofs/LocOpsD.vio
+Proofs/LocAll.vos Proofs/LocAll.vok Proofs/LocAll.required_vos: Proofs/LocAll.v Model/Val.vos Model/Syntax.vos Model/Step.vos Model/Spec.vos Model/Loc.vos Proofs/LocBase.vos Proofs/LocOpsA.vos Proofs/LocOpsB.vos Proofs/LocOpsC.vos Proofs/LocOpsD.vos
 Props/C01.vo Props/C01.glob Props/C01.v.beautified Props/C01.required_vo: Props/C01.v Model/Val.vo Model/Syntax.vo Model/World.vo Model/Step.vo Model/Oracle.vo Proofs/Contract.vo
 Props/C01.vio: Props/C01.v Model/Val.vio Model/Syntax.vio Model/World.vio Model/Step.vio Model/Oracle.vio Proofs/Contract.vio
 Props/C01.vos Props/C01.vok Props/C01.required_vos: Props/C01.v Model/Val.vos Model/Syntax.vos Model/World.vos Model/Step.vos Model/Oracle.vos Proofs/Contract.vos
-Extract/Extract.vo Extract/Extract.glob Extract/Extract.v.beautified Extract/Extract.required_vo: Extract/Extract.v Model/Val.vo Model/Syntax.vo Model/World.vo Model/Step.vo Model/Oracle.vo
-Extract/Extract.vio: Extract/Extract.v Model/Val.vio Model/Syntax.vio Model/World.vio Model/Step.vio Model/Oracle.vio
-Extract/Extract.vos Extract/Extract.vok Extract/Extract.required_vos: Extract/Extract.v Model/Val.vos Model/Syntax.vos Model/World.vos Model/Step.vos Model/Oracle.vos
+Props/C02.vo Props/C02.glob Props/C02.v.beautified Props/C02.required_vo: Props/C02.v Model/Val.vo Model/Syntax.vo Model/Step.vo Model/Spec.vo Model/Loc.vo Proofs/LocBase.vo Proofs/LocOpsA.vo Proofs/LocOpsB.vo Proofs/LocOpsC.vo Proofs/LocOpsD.vo Proofs/LocAll.vo
+Props/C02.vio: Props/C02.v Model/Val.vio Model/Syntax.vio Model/Step.vio Model/Spec.vio Model/Loc.vio Proofs/LocBase.vio Proofs/LocOpsA.vio Proofs/LocOpsB.vio Proofs/LocOpsC.vio Proofs/LocOpsD.vio Proofs/LocAll.vio
+Props/C02.vos Props/C02.vok Props/C02.required_vos: Props/C02.v Model/Val.vos Model/Syntax.vos Model/Step.vos Model/Spec.vos Model/Loc.vos Proofs/LocBase.vos Proofs/LocOpsA.vos Proofs/LocOpsB.vos Proofs/LocOpsC.vos Proofs/LocOpsD.vos Proofs/LocAll.vos
+Extract/Extract.vo Extract/Extract.glob Extract/Extract.v.beautified Extract/Extract.required_vo: Extract/Extract.v Model/Val.vo Model/Syntax.vo Model/World.vo Model/Step.vo Model/Oracle.vo Model/Oracle2.vo
+Extract/Extract.vio: Extract/Extract.v Model/Val.vio Model/Syntax.vio Model/World.vio Model/Step.vio Model/Oracle.vio Model/Oracle2.vio
+Extract/Extract.vos Extract/Extract.vok Extract/Extract.required_vos: Extract/Extract.v Model/Val.vos Model/Syntax.vos Model/World.vos Model/Step.vos Model/Oracle.vos Model/Oracle2.vos
